@@ -257,6 +257,9 @@ func csRecord(fields []csField, name string) (reflect.Type, string) {
 	return reflect.StructOf(sfs), fmt.Sprintf(`{"type":"record","name":"%s","fields":[%s]}`, name, strings.Join(parts, ","))
 }
 
+// csLongArrays: csValue makes every array long enough for any bulk path
+var csLongArrays bool
+
 func csValue(rng *rand.Rand, t reflect.Type, fields []csField) reflect.Value {
 	v := reflect.New(t).Elem()
 	for i, f := range fields {
@@ -264,7 +267,7 @@ func csValue(rng *rand.Rand, t reflect.Type, fields []csField) reflect.Value {
 		switch f.wrap {
 		case "array":
 			n := rng.Intn(4)
-			if rng.Intn(4) == 0 {
+			if rng.Intn(4) == 0 || csLongArrays {
 				n = []int{15, 16, 17, 40, 64}[rng.Intn(5)] // long enough for any bulk path
 			}
 			s := reflect.MakeSlice(fv.Type(), n, n)
@@ -364,7 +367,9 @@ func driveCallerSchemas(c *driverCtx, prop string) error {
 					t, sj := csRecord(fields, fmt.Sprintf("R_%s_%s%v", strings.NewReplacer("-", "_", ".", "_").Replace(sp.class), wrap, omit))
 					n++
 					for k := 0; k < c.pick(4, 120); k++ {
+						csLongArrays = k == 1 // one value of every pair has its arrays long
 						emitCS(c, prop, fmt.Sprintf("%s|%s|%s|%s%s", prop, sp.class, shortSchema(sch), wrap, map[bool]string{true: "omitempty"}[omit]), sj, t, csValue(c.rng, t, fields), true)
+						csLongArrays = false
 					}
 				}
 			}
